@@ -56,15 +56,21 @@ def classify(body):
     return "other"
 
 
+def all_lines(case):
+    """``repeat`` (optional) repeats the list of line bodies: big documents as small cases."""
+    k = case.get("repeat", 1)
+    return case["lines"] * k if isinstance(k, int) and 1 < k <= 20000 else case["lines"]
+
+
 def expected_text(case):
-    lines, mode = case["lines"], case["mode"]
+    lines, mode = all_lines(case), case["mode"]
     if mode == "term" or mode == "none":
         return "".join(l + "\n" for l in lines)
     return "".join(l + "\n" for l in lines[:-1]) + lines[-1]
 
 
 def input_lines(case):
-    lines, mode = case["lines"], case["mode"]
+    lines, mode = all_lines(case), case["mode"]
     if mode == "term":
         out = [l + "\n" for l in lines]
     elif mode == "none":
@@ -77,7 +83,7 @@ def input_lines(case):
 
 
 def valid_case(case):
-    lines, mode = case["lines"], case["mode"]
+    lines, mode = all_lines(case), case["mode"]
     if any("\n" in l for l in lines):
         return False
     if mode == "none":
@@ -125,9 +131,40 @@ def check(case):
                            accept_files_with_duplicated_fields=True)
     if f2.dump() != exp:
         raise Violation("dump-differs", "list input: dump gives %s" % short(f2.dump()))
+    # Two live documents with the same layout are independent: re-ordering the fields of one
+    # (again a perturbation only) leaves the dump of an unmodified one - parsed before or after -
+    # exactly the input.
+    f3 = parse_deb822_file(iter(lines), accept_files_with_error_tokens=True,
+                           accept_files_with_duplicated_fields=True)
+    if len(lines) <= 64:
+        for para in list(f2):
+            ks = []
+            for k in para.keys():
+                if str(k).lower() not in [x.lower() for x in ks]:
+                    ks.append(str(k))
+            if len(ks) >= 2:
+                try:
+                    para.order_after(ks[0], ks[-1])
+                    para.order_before(ks[-1], ks[0])
+                    para.order_first(ks[-1])
+                    para.order_last(ks[0])
+                    para.sort_fields()
+                except (KeyError, ValueError):
+                    pass
+        f4 = parse_deb822_file(iter(lines), accept_files_with_error_tokens=True,
+                               accept_files_with_duplicated_fields=True)
+        for which, g in (("parsed before", f3), ("parsed after", f4)):
+            if g.dump() != exp:
+                raise Violation("dump-depends-on-another-document",
+                                "a document %s another one with the same lines was re-ordered dumps %s, "
+                                "input %s" % (which, short(g.dump()), short(exp)))
 
+    if len(exp) > 8192:
+        labels_big = ["document-longer-than-8192-chars"]
+    else:
+        labels_big = []
     classes = [classify(l) for l in case["lines"]]
-    labels = ["mode:" + case["mode"]]
+    labels = ["mode:" + case["mode"]] + labels_big
     if case.get("bytes"):
         labels.append("bytes-input")
     if any(type(t).__name__ == "Deb822ErrorToken" for t in toks):
@@ -220,10 +257,31 @@ def fuzz_bytes_to_case(data):
     return case if valid_case(case) else None
 
 
+def big_docs():
+    """Documents beyond the sizes of I/O buffers (8 KiB, 64 KiB): repeated blocks and single very
+    long lines, in every termination mode, as str and bytes."""
+    blocks = [["A: b", " c", "", "#x", "B: d"], ["junk", " orphan", "A:b", "A: dup"],
+              ["A: " + "v" * 9000], ["# " + "c" * 9000, "A: b"], [" " * 9000, "A: b", "\t" * 70000],
+              ["A:", " " + "w" * 20000, " x"], ["Key-%s: v" % ("k" * 8189)]]
+    for b in blocks:
+        for rep in (1, 400, 2500, 12000):
+            if rep > 1 and sum(len(x) for x in b) > 1000:
+                continue
+            if rep == 12000 and b is not blocks[0]:
+                continue
+            for mode in ("term", "lastopen", "none"):
+                if mode == "none" and len(b) * rep < 2:
+                    continue
+                for by in (False, True):
+                    yield {"mode": mode, "lines": b, "repeat": rep, "bytes": by}
+
+
 def sources(tier):
     if tier == "quick":
-        return [Enum("line-classes<=3", enum_cases(3), EXHAUSTIVE["quick"]),
+        return [Enum("big-documents", big_docs, "7 blocks x repeats 1/400/2500(/12000) x 3 modes x str/bytes"),
+                Enum("line-classes<=3", enum_cases(3), EXHAUSTIVE["quick"]),
                 Hyp("unicode-lines", gen_case(), 1500, shards=8)]
-    return [Enum("line-classes<=4", enum_cases(4), EXHAUSTIVE["thorough"]),
+    return [Enum("big-documents", big_docs, "7 blocks x repeats 1/400/2500(/12000) x 3 modes x str/bytes"),
+            Enum("line-classes<=4", enum_cases(4), EXHAUSTIVE["thorough"]),
             Hyp("unicode-lines", gen_case(), 20000, shards=16),
             Custom("atheris", fuzz_phase, shards=2)]
